@@ -13,3 +13,21 @@ Ltac tie_destr :=
 
 (* a leaf: both sides are the same value, or the path is contradictory (a test remembered with two different results) *)
 Ltac tie_done := first [reflexivity | congruence | discriminate].
+
+(* Symbolic execution in evaluation order: the scrutinee the left-hand side is stuck on (following the chain
+   match (match (... x ...)) ...), else the one the right-hand side is stuck on, is case-split; a case split replaces every
+   occurrence on both sides, so the two programs walk their common path together and dead arms are never visited. *)
+Ltac head_scrut t :=
+  lazymatch t with
+  | match ?x with _ => _ end => head_scrut x
+  | _ => t
+  end.
+Ltac tie_split_on a :=
+  first [ match goal with H : a = _ |- _ => rewrite H end     (* a re-read of something already case-split *)
+        | destruct a eqn:? ].
+Ltac tie_step :=
+  lazymatch goal with
+  | |- ?l = ?r =>
+    first [ lazymatch l with match _ with _ => _ end => let a := head_scrut l in tie_split_on a end
+          | lazymatch r with match _ with _ => _ end => let b := head_scrut r in tie_split_on b end ]
+  end.
